@@ -332,6 +332,33 @@ func genXport(r *rng, seed uint64, focus, arm string) *plan.Plan {
 			xp.ServerEvents = append(xp.ServerEvents, plan.ServerEvent{Up: r.intn(nu), AtUs: r.i64(1000, span), Kind: "close_idle_conns"})
 		}
 	}
+	if focus == "C14" && r.p(0.2) {
+		// a udp server that is gone for a few seconds, with "port unreachable"
+		// coming back for every datagram: exchanges during that time fail at once
+		for ui, u := range xp.Upstreams {
+			if u.Kind != "udp" {
+				continue
+			}
+			xp.Net.ICMP = true
+			xp.Net.UpDrop, xp.Net.UpDup = 0, 0
+			at := r.i64(5_000, span)
+			down := r.rng(3000, 9000)
+			var keep []plan.ServerEvent
+			for _, e := range xp.ServerEvents {
+				if e.Up != ui {
+					keep = append(keep, e)
+				}
+			}
+			xp.ServerEvents = append(keep, plan.ServerEvent{Up: ui, AtUs: at, Kind: "down", DownMs: down})
+			for n := r.rng(2, 5); n > 0; n-- {
+				i := len(xp.Calls)
+				tok := fmt.Sprintf("t%d", i)
+				xp.Tokens[tok] = &plan.TokenSpec{Ans: plan.AnswerSpec{NAn: 1, TTLs: []uint32{300}, Shape: "plain"}, Acts: []plan.UpAction{{Kind: "reply", DelayUs: r.i64(50, 5000)}}}
+				xp.Calls = append(xp.Calls, plan.XCall{Idx: i, Up: ui, AtUs: at + r.i64(20_000, int64(down)*1000-2_100_000), ID: uint16(r.u64()), Token: tok, Type: 1, DeadlineUs: []int64{3_000_000, 5_000_000, 6_000_000}[r.intn(3)]})
+			}
+			break
+		}
+	}
 	if focus == "C14" && arm == "faults" {
 		if r.p(0.3) {
 			xp.Net.Connect = map[string]string{xp.Upstreams[r.intn(nu)].Tag: []string{"refuse", "blackhole"}[r.intn(2)]}
